@@ -58,9 +58,10 @@ class Chooser:
 
 
 class Result:
-    __slots__ = ("digest", "nontrivial", "violations", "clauses")
+    __slots__ = ("digest", "nontrivial", "violations", "clauses", "weight")
 
     def __init__(self):
+        self.weight = 0           # long fixed workloads are the last choice as witnesses
         self.digest = None
         self.nontrivial = False
         self.violations = []      # (clause, shape, message)
@@ -105,7 +106,9 @@ def with_long(execute):
             c2 = dict(cfg)
             c2.pop("long")
             c2.update(lg.get("set", {}))
-            return execute(Periodic(lg["pattern"]), c2)
+            res = execute(Periodic(lg["pattern"]), c2)
+            res.weight = 1
+            return res
         return execute(ch, cfg)
     return run
 
@@ -207,8 +210,9 @@ def add_debug(cfgs, key=None, skip=lambda c: False):
 LONG_PATTERNS = [[3, 17, 8, 29, 11, 23, 5, 14, 26, 0, 19], [2, 27, 13, 8, 22, 18, 1], [0, 10, 1, 20, 2, 0, 30, 0, 3, 12, 0, 21, 5]]
 
 
-def add_long(cfgs, n, key=None, patterns=None, skip=lambda c: False, extra=None):
-    """append one long fixed workload (n arrivals) per pattern for every configuration (or the first one per `key`)"""
+def add_long(cfgs, n, key=None, patterns=None, skip=lambda c: False, extra=None, burst=0):
+    """append one long fixed workload (n arrivals) per pattern for every configuration (or the first one per `key`);
+    burst > 0: additionally one burst of that many packets at a single instant"""
     out = []
     seen = set()
     for c in cfgs:
@@ -223,6 +227,10 @@ def add_long(cfgs, n, key=None, patterns=None, skip=lambda c: False, extra=None)
             st = {"N": n(c) if callable(n) else n}
             st.update(extra or {})
             out.append(dict(c, long={"pattern": p, "set": st}))
+        if burst:
+            st = {"N": burst}
+            st.update(extra or {})
+            out.append(dict(c, long={"pattern": [0], "set": st}))
     cfgs.extend(out)
     return len(out)
 
@@ -263,7 +271,7 @@ class Stats:
         for (clause, shape, msg) in res.violations:
             key = (clause, shape)
             cur = self.viol.get(key)
-            wit = (cfg_idx, list(ch.choices), msg)
+            wit = (cfg_idx, list(ch.choices), msg, res.weight)
             if cur is None:
                 self.viol[key] = [1, wit]
             else:
@@ -299,8 +307,8 @@ class Stats:
 
 
 def _simpler(a, b):
-    ka = (sum(1 for c in a[1] if c), len(a[1]), a[0], a[1])
-    kb = (sum(1 for c in b[1] if c), len(b[1]), b[0], b[1])
+    ka = (a[3] if len(a) > 3 else 0, sum(1 for c in a[1] if c), len(a[1]), a[0], a[1])
+    kb = (b[3] if len(b) > 3 else 0, sum(1 for c in b[1] if c), len(b[1]), b[0], b[1])
     return ka < kb
 
 
@@ -386,7 +394,9 @@ def explore_subtree(execute, cfg, cfg_idx, root, budget, stats, limit=None, fron
         if cap and stats.executions >= cap:
             return
         if deadline is not None and time.time() > deadline:
-            raise Deadline("serial phase: configuration %d" % cfg_idx)
+            e = Deadline("serial phase: configuration %d" % cfg_idx)
+            e.stats = stats
+            raise e
         if limit is not None and (len(stack) >= limit or done >= 40 * limit):
             frontier.extend(stack)
             return
@@ -484,7 +494,9 @@ def explore_all(execute, cfgs, budget=None, workers=None, split_target=4096, sel
                         break
                     except mp.TimeoutError:
                         pool.terminate()
-                        raise Deadline("%d of %d work items finished" % (done, len(items)))
+                        e = Deadline("%d of %d work items finished" % (done, len(items)))
+                        e.stats = total
+                        raise e
                     total.merge(st)
                     done += 1
                     if progress and done % 200 == 0:
